@@ -167,6 +167,9 @@ func propCheck(c Case) string {
 	if c.Kind == "hist" {
 		return propCheckHist(c)
 	}
+	if c.Kind == "ctor0" {
+		return propCheckCtor0(c)
+	}
 	if c.Kind == "pre" {
 		p, _ := observePre(c)
 		want := false
@@ -346,6 +349,10 @@ func propSeqs(c Case, obs HObs, pi []float64, tr, tf [][]float64) string {
 		if wv := b.weight(so.Vit); wv < best*(1-otol) {
 			return tag + fmt.Sprintf("Viterbi path %v has joint probability %g, the best path has %g", so.Vit, wv, best)
 		}
+		// round 6: the classifier front-ends
+		if r := propCls(tag, c, s, so, b, marg, total, best); r != "" {
+			return r
+		}
 	}
 	return ""
 }
@@ -401,7 +408,7 @@ func shrink(c Case) Case {
 	if c.Kind == "bw" {
 		return shrinkBW(c)
 	}
-	if isMix(c) {
+	if isMix(c) || c.Kind == "ctor0" {
 		return c
 	}
 	if c.Kind == "hist" {
@@ -434,12 +441,33 @@ func shrink(c Case) Case {
 			x.Seqs[i].Sets = nil
 		}
 	})
+	// classifier calls: none, else a single one
+	try(func(x *Case) {
+		for i := range x.Seqs {
+			x.Seqs[i].Cls = nil
+		}
+	})
+	if len(c.Seqs) == 1 {
+		for _, cj := range c.Seqs[0].Cls {
+			cj := cj
+			n1 := len(c.Seqs[0].Cls)
+			try(func(x *Case) { x.Seqs[0].Cls = []ClsJ{cj} })
+			if len(c.Seqs[0].Cls) < n1 {
+				break
+			}
+		}
+	}
 	// shorter sequence
 	for len(c.Seqs) == 1 && c.Seqs[0].N > 1 {
 		n0 := c.Seqs[0].N
 		try(func(x *Case) {
 			s := &x.Seqs[0]
 			s.N--
+			for q := range s.Cls {
+				if s.Cls[q].Rdim > 0 {
+					s.Cls[q].Rdim--
+				}
+			}
 			if s.X != nil {
 				s.X = s.X[:s.N]
 			}
